@@ -146,6 +146,15 @@ def named_like_hoisted_text(rng):
             lines.append("%s array A%d =\n    %s" % (ty, k, z[rng.randint(0, 1)]))
             lines.append("%s array Wz =\n    %s" % (ty, z[rng.randint(0, 1)]))
             lines.append(rng.choice(["Sgate(Wz, 0.5) | 0", "Kgate(U=Wz) | 1"]))
+        if rng.random() < 0.6:
+            # SCALAR variables (of every type) called like hoisted arrays, next to arrays that will be hoisted
+            free = [n for n in ["A0", "A1", "A2", "A3"] if n not in names]
+            for nm in rng.sample(free, min(len(free), rng.randint(1, 2))):
+                lines.append(rng.choice(["float %s = 0.5", "int %s = 3", 'str %s = "lab"', "bool %s = True", "complex %s = 1+2j"]) % nm)
+                if rng.random() < 0.5:
+                    lines.append("Rgate(0.25, tag=%s) | 0" % nm)
+            lines.append("float array Wv =\n    1, 2\n    3, 4")
+            lines.append(rng.choice(["Interferometer(Wv) | [0, 1]", "Kgate(U=Wv) | 1"]))
         for _ in range(rng.randint(1, 4)):
             a, b = rng.sample(names, 2)
             lines.append(rng.choice(["Sgate(%s, 0.5) | 0\nDgate(%s) | 1", "BSgate(%s, U=%s) | [0, 1]", "Kgate(U=%s, V=%s) | 1", "Ggate(%s) | 0\nGgate(%s, 1) | 1"]) % (a, b))
